@@ -10,7 +10,8 @@ Line-protocol driver for the Viz model (C20).  One output line per input line.
 Producer: harness/viz_common.py.
 
   scenario space FAM W H [ints…]     reset; FAM ∈ single multi hexs hexm moore vn hex netgrid net vor cs xcs;
-                                     extra ints: network node labels in graph order / Voronoi centroids x y x y …
+                                     extra ints: network node labels in graph order / Voronoi centroids x y x y … /
+                                     for `cs` optionally the origin X0 Y0 (x_min, y_min; positions are relative to it)
   scenario params                    reset
 
  space scenarios
@@ -80,6 +81,8 @@ def parseExtra (fam : Family) (ws : List String) : Option (List Loc) := do
   match fam with
   | .netgrid | .net => pure (ints.map fun n => ⟨n, 0⟩)
   | .vor => pairUp ints
+  -- `cs X0 Y0`: the origin (`x_min`, `y_min`) of a `mesa.space.ContinuousSpace`; positions in the protocol are relative to it
+  | .cs => if ints.isEmpty || ints.length == 2 then pure [] else none
   | _ => if ints.isEmpty then pure [] else none
 
 structure St where
